@@ -133,11 +133,16 @@ CHECKS = {
         "seed-independent decode sweep (all CPUs), at one or two load addresses; executed in-process through the real "
         "assembler and the real per-CPU decoders; TLC accepts each recorded case.",
    design_ref="DESIGN.md 4 C01",
-   note="For all CPUs the oracle is self-consistency (an error made identically in encoder and decoder is invisible); the "
-        "transcription of the MSP430/RV32I encodings (third sentence of the property) is NOT built in this revision. arm is "
-        "out of scope (codec_scope.json): 453 untriaged disagreement classes on the unchanged tree.",
-   technique="TLA+ phase specification of the round trip; corpus + harvested forms replayed through assembler and "
-             "decoders; TLC trace acceptor (tiling + re-encode)"),
+   note="For CPUs other than MSP430 the oracle is self-consistency (an error made identically in encoder and decoder is "
+        "invisible). The third sentence of the property is built for MSP430: Msp430Enc.tla transcribes the encodings of "
+        "SLAU144 (formats I/II, jumps, addressing modes, constant generators, 24 emulated instructions) and GenMsp430Enc "
+        "enumerates 5,752 assembly-level instructions (every opcode x source mode x destination mode x byte/word, values at "
+        "the constant-generator corners) at two addresses; the bytes the real assembler emits must be one of the manual's "
+        "encodings. The RV32I transcription is NOT built. arm is out of scope (codec_scope.json): 453 untriaged "
+        "disagreement classes on the unchanged tree.",
+   technique="TLA+ phase specification of the round trip + TLA+ transcription of the MSP430 encodings (SLAU144); corpus, "
+             "harvested forms and TLC-enumerated MSP430 instructions replayed through assembler and decoders; TLC trace "
+             "acceptors (tiling, re-encode, architecture encoding)"),
  "C06": dict(
    category="model_checking",
    text="Codec!Injective: within one (cpu, form, operand position, address) group two accepted operand values with equal "
